@@ -651,7 +651,49 @@ func sizeSweep(acc *ev.Acc, tier string) {
 						}
 					}
 				}
+				// offsets and lengths at the edges of uint64 / int64 (small files only: the answer is "what exists from off on")
+				if L <= 4096 && how == "atomic" {
+					for _, off := range []uint64{0, uint64(L), 1 << 62, 1<<63 - 1, 1 << 63, 1<<64 - 1} {
+						for _, ln := range []uint64{1, 1 << 62, 1 << 63, 1<<64 - 1, 1<<64 - 1 - off} {
+							var got []byte
+							p := libh.Try(func() { got = im.ReadAt(fd, off, ln) })
+							var want []byte
+							if off < uint64(L) {
+								end := uint64(L)
+								if ln < uint64(L)-off {
+									end = off + ln
+								}
+								want = data[off:end]
+							}
+							acc.Add("transitions", 1)
+							acc.Add("size_sweep_reads", 1)
+							if p != "" || string(got) != string(want) {
+								acc.Violate(ev.Violation{Key: fmt.Sprintf("%s/ReadAt-edge(%d,%d)", key, off, ln), Msg: fmt.Sprintf("%s: file of %d bytes: ReadAt(off=%d,len=%d) returned %d bytes (panic=%q), the reference has %d", name, L, off, ln, len(got), p, len(want)), Replay: map[string]any{"mode": "size-sweep", "impl": name, "L": L, "how": how, "off": off, "len": ln}})
+							}
+						}
+					}
+				}
 				libh.Try(func() { im.Close(fd) })
+			}
+		}
+		// file names up to NAME_MAX: every operation that takes a name treats them alike
+		for _, nl := range []int{1, 200, 251, 252, 254, 255} {
+			im := fsh.New(name, false)
+			nm := strings.Repeat("n", nl)
+			var got []byte
+			var listed []string
+			p := libh.Try(func() {
+				im.AtomicCreate("d", nm, []byte("v1"))
+				im.AtomicCreate("d", nm, []byte("v2"))
+				f := im.Open("d", nm)
+				got = im.ReadAt(f, 0, 10)
+				im.Close(f)
+				listed = im.List("d")
+				im.Delete("d", nm)
+			})
+			acc.Add("transitions", 6)
+			if p != "" || string(got) != "v2" || len(listed) != 1 || listed[0] != nm {
+				acc.Violate(ev.Violation{Key: fmt.Sprintf("C12/%s/name-sweep/len=%d", name, nl), Msg: fmt.Sprintf("%s: AtomicCreate twice / Open / ReadAt / List / Delete of a %d-byte file name: panic=%q read=%q listed %d names (Create, Open, Delete and Link accept such a name)", name, nl, p, got, len(listed)), Replay: map[string]any{"mode": "size-sweep", "impl": name, "L": 0, "how": "atomic"}})
 			}
 		}
 	}
